@@ -102,7 +102,7 @@ def main():
         "engines": [
             {"name": "E1", "path": "harness/src/engine.rs", "serves_properties": sorted(CHECKS), "kind_free_text": "sharded proptest TestRunner (16 shards, fixed seeds from VERIF_SEED), catch_unwind around kiki, automatic shrinking, replay files"},
             {"name": "E2", "path": "harness/src/e2.rs", "serves_properties": [p for p in ("C01", "C02", "C03", "C05", "C06") if p in CHECKS], "kind_free_text": "emitted text written verbatim, compiled with plain rustc (no cargo, no network) together with a generated client, run under RLIMIT_AS and a watchdog; scratch under /verif/.work removed per case"},
-            {"name": "E3", "path": "harness/fuzz + harness/src/fuzzrun.rs + harness/src/fuzzapi.rs", "serves_properties": [p for p in ("C04", "C07", "C08", "C09", "C10", "C11", "C12", "C13", "C14", "C15", "C16", "C17", "C18") if p in CHECKS], "kind_free_text": "coverage-guided libFuzzer campaigns (cargo-fuzz targets text_frontend, grammar_struct, oset_ops, hash_header; oracle inside the target; fixed work -runs/-seed; 8 processes); thorough tiers only"},
+            {"name": "E3", "path": "harness/fuzz + harness/src/fuzzrun.rs + harness/src/fuzzapi.rs", "serves_properties": [p for p in ("C04", "C07", "C08", "C09", "C10", "C11", "C12", "C13", "C14", "C15", "C16", "C17", "C18") if p in CHECKS], "kind_free_text": "coverage-guided libFuzzer campaigns (cargo-fuzz targets text_frontend, raw_struct (bytes decoded into the raw value of the text generators), grammar_struct, oset_ops, hash_header; oracle inside the target; fixed work -runs/-seed; 8 processes); thorough tiers only"},
             {"name": "E4", "path": "harness/src/props/total.rs", "serves_properties": [p for p in ("C07", "C14") if p in CHECKS], "kind_free_text": "the verif binary re-executes itself (`verif worker`) to observe aborts / stack overflows and fresh-process hash seeds"},
         ],
         "checks": checks,
